@@ -40,3 +40,8 @@ claim("C16", "exploration", E1,
       "Exhaustive over the option lattice (six presets x 2^4 store flags x store_mass_matrix x use_grad_based_estimate x dims 0/1/2[/5]) x divergence placements (every single draw and every pair of draws of a 12-draw history): names and order, value variant vs declared type, length vs declared dims, presence rules for non-event / divergence / transformation-update statistics, draw counter and chain id.",
       "Trusted: the harness' reading of the Storable contract; divergences are injected through the density (recoverable error / huge logp drop); one diagonal Gaussian target per dimension.",
       "bounded-exhaustive enumeration of the option lattice x fault placements on real chains", "4/C16")
+
+claim("C19", "exploration", E1,
+      "Six presets x default and every single-field substitution over a per-type alphabet (thorough: all pairs): JSON round trip is a fixed point that keeps every field (Debug field list vs JSON keys), and chains built from the round-tripped settings are bit-identical. The trace-metadata clause (sampler_settings attribute) is checked with the Zarr backend under C14.",
+      "Trusted: serde_json; non-finite floats are outside the quantifier; chains are compared on one 3-d Gaussian for 30 (NUTS) / 10 (MCLMC) draws with a 200k-evaluation watchdog.",
+      "bounded-exhaustive enumeration of field substitutions, differential oracle on real chains", "4/C19")
